@@ -17,6 +17,10 @@ from ..report import Obligation, Report
 TABLE = {
     'C01': [('C05', {'R05.6': 'R01.13'},
              'a work directory that still holds files of a dead attempt is published as part of the next result: the stored value is not what the computation yields')],
+    'C02': [('C01', {'R01.7': 'R02.9'},
+             'declared parameter objects (and their mutable defaults) shared between task instances can be changed by one run: the same config built later in the process renders other values into its key')],
+    'C03': [('C01', {'R01.2': 'R03.12'},
+             'an input whose name / key does not reach the hashed text (two inputs collapsing to one entry) lets different upstream computations share one key')],
     'C05': [('C07', {'R07.7': 'R05.8'},
              'a recomputed directory result that lands inside (or is merged into) the old one leaves a visible result that is neither the old nor the new value')],
     'C14': [('C16', {'R16.5': 'R14.8', 'R16.6': 'R14.9'},
